@@ -648,6 +648,8 @@ int main(int argc, char** argv)
          if (verbose) out.sample("T" + std::to_string(t) + ": " + ws[t].sc.descr + "  ->  " + oneLine(ws[t].expected, 900));
       }
       prog.descr(d);
+      // the sequential runs above created the library-internal Groups singleton: the threads start without it
+      celma::prog_args::Groups::reset();
       gArrived.store(0);
       gGo.store(0);
       std::vector<std::thread> th;
